@@ -76,6 +76,48 @@ def probe_cases():
     return {"get": g, "sget": sg, "eq": e, "seq": se, "concat": c, "concat_order": c2, "sconcat": sc}
 
 
+def lock_probes(verd, variant):
+    """While an operation runs one of the element callbacks (Clone / PartialEq of the element type) it must
+    hold the lock of the list whose elements it touches: at that point another thread's len() on the same list
+    has to block.  (For get the discipline is a model constant and handled by detect_variant.)"""
+    def probe(op, nsteps, lists):
+        st = [{"t": 1, "act": "start", "op": op}] + [{"t": 1, "act": "step"}] * nsteps
+        for l in lists:
+            st += [{"t": 2, "act": "start", "op": {"k": "len", "l": l}}, {"t": 2, "act": "step", "may_block": True},
+                   {"t": 1, "act": "step", "may_block": True}, {"t": 2, "act": "step", "may_block": True}]
+        return {"initbuf": INIT, "threads": 2, "elem_pause": True, "steps": steps(*st)}
+    both = 2 if variant["concat"] else 1
+    ps = {
+        "contains": (probe({"k": "contains", "l": 1, "v": 13}, 1, [1]), 2),
+        "index": (probe({"k": "index", "l": 1, "v": 13}, 1, [1]), 2),
+        "tovec": (probe({"k": "tovec", "l": 1}, 1, [1]), 2),
+        "concat": (probe({"k": "concat", "a": 1, "b": 2}, both, [1]), both + 1),
+        "sconcat": (probe({"k": "sconcat", "a": 1, "b": 2}, both, [1]), both + 1),
+    }
+    names = list(ps)
+    res = vlib.run_batch("c16", [ps[n][0] for n in names], nproc=1, stall=20, pid=PID, tag="lockprobe")
+    out = {}
+    for n, r in zip(names, res):
+        if "r" not in r:
+            verd.report({"kind_of_failure": vlib.outcome_of(r).split(":")[0], "ops": n},
+                        "lock probe for %s did not survive: %s" % (n, r), {"case": ps[n][0], "result": r})
+            continue
+        st = r["r"]["steps"]
+        k_elem = ps[n][1] - 1          # index of the step after which t1 is parked in an element callback
+        k_probe = ps[n][1] + 1         # index of t2's granted len()
+        parked = (st[k_elem].get("parked") or {}) if len(st) > k_elem else {}
+        if parked.get("k") != "elem":
+            out[n] = "no element callback reached (%s)" % parked
+            continue
+        held = len(st) > k_probe and st[k_probe].get("blocked") is True
+        out[n] = "lock held" if held else "LOCK NOT HELD"
+        if not held:
+            verd.report({"kind_of_failure": "unlocked-element-access", "ops": n},
+                        "%s touches the elements of list 1 (element callback running) while another thread's len() on that "
+                        "list completes: the list's lock is not held during the access" % n, {"case": ps[n][0], "result": r})
+    return out
+
+
 def detect_variant(verd):
     pc = probe_cases()
     names = list(pc)
@@ -193,6 +235,8 @@ def run(tier):
     ev.extra["model_constants"] = {"FixGet": variant["get"], "FixSGet": variant["sget"], "FixEq": variant["eq"],
                                    "FixSEq": variant["seq"], "FixConcat": variant["concat"]}
     vlib.log("C16 variant", variant, info)
+    ev.extra["element_access_under_lock"] = lock_probes(verd, variant)
+    vlib.log("C16 lock probes", ev.extra["element_access_under_lock"])
 
     # ---- 2. exhaustive model checking of the discipline the code follows
     plans = [(2, 2, ALL_KINDS)]
